@@ -42,6 +42,24 @@ PROPS = {
         'design_ref': 'DESIGN.md 5 C02',
         'explanation': 'identifier contracts over the C01 encoders',
     },
+    'C04': {
+        'modules': ['contracts.c04'],
+        'level': 'proof',
+        'trusted_base': COMMON_TB,
+        'assumptions': [
+            'SHA-256 uninterpreted (same symbol in code and spec)',
+            'struct.pack contracts; BytesIO contract',
+            'C01 serialiser contracts (proved there) are used at call sites',
+            'elements of symbolic vin/vout sequences are modelled as instances of the immutable element class',
+        ],
+        'level_text': 'The SIGVERSION_WITNESS_V0 branch of SignatureHash returns H2(BIP143 preimage) for every '
+                      'transaction in wire range, every valid input index, amounts 0..2^63-1 and all 256 hash-type '
+                      'bytes, and raises nothing (every struct.pack argument is shown to be in range); three '
+                      'accumulation loops carry invariants over unbounded input/output counts.',
+        'level_note': 'trusted: pyvc, z3/cvc5, hash functions uninterpreted, C01 contracts, specs/sighash.py',
+        'design_ref': 'DESIGN.md 5 C04',
+        'explanation': 'BIP143 contract',
+    },
     'C17': {
         'modules': ['contracts.c17'],
         'level': 'proof',
